@@ -627,3 +627,14 @@ Proof.
   intros priv [pub hid] m0 m1. unfold host_view. cbn [hv_direct hv_addrs hv_hole hx_pub hx_hidden].
   destruct priv, pub, hid, m0, m1; cbn; repeat split; auto; discriminate.
 Qed.
+
+(* of two reports of one connection in quick succession, the LATEST is the one
+   that is credited (when it counts) *)
+Lemma latest_report_counts_l : forall cfg st c oa ob l x,
+  counts cfg (closed (step cfg st (Observe c oa))) c ob = Some (l, x) ->
+  get Z.eqb c (cobs (step cfg st (ObservePair c oa ob))) = Some x.
+Proof.
+  intros cfg st c oa ob l x H.
+  change (step cfg st (ObservePair c oa ob)) with (step cfg (step cfg st (Observe c oa)) (Observe c ob)).
+  eapply observe_credits_l. exact H.
+Qed.
